@@ -1060,7 +1060,7 @@ func (fr *frame) enterLoop(li *loopInfo, fwdPreds []int) {
 	}
 	envIn := fr.loopEnv(li, phiIn, memIn)
 	for _, cl := range invs {
-		vc.oblige("inv-entry", fmt.Sprintf("%s/inv-entry[loop %d: %s]", vc.Name, li.ordinal, clauseLabel(cl)), gIn, envIn.evalBool(cl.Expr), fr.pos(li.head.Instrs[0].Pos()))
+		vc.oblige("inv-entry", fmt.Sprintf("%s/inv-entry[loop %d: %s]", vc.Name, li.ordinal, clauseLabel(cl)), gIn, envIn.evalBool(cl.Expr), fr.pos(li.head.Instrs[0].Pos())).Group = cl.Group
 	}
 	// arbitrary iteration
 	pats := fr.loopMods(li)
@@ -1090,7 +1090,7 @@ func (fr *frame) enterLoop(li *loopInfo, fwdPreds []int) {
 	fr.counterInvariants(li, gh)
 	envH := fr.loopEnv(li, phiH, fr.mem)
 	for _, cl := range invs {
-		vc.assume(implies(gh, envH.evalBool(cl.Expr)))
+		vc.assumeGroup(cl.Group, implies(gh, envH.evalBool(cl.Expr)))
 	}
 }
 
@@ -1114,7 +1114,7 @@ func (fr *frame) backEdge(from, to *ssa.BasicBlock, g string) {
 		via = fmt.Sprintf(" via back edge %d", li.nback)
 	}
 	for _, cl := range fr.loopClauses(li, "invariant") {
-		vc.oblige("inv-step", fmt.Sprintf("%s/inv-step[loop %d: %s%s]", vc.Name, li.ordinal, clauseLabel(cl), via), g, env.evalBool(cl.Expr), fr.pos(from.Instrs[len(from.Instrs)-1].Pos()))
+		vc.oblige("inv-step", fmt.Sprintf("%s/inv-step[loop %d: %s%s]", vc.Name, li.ordinal, clauseLabel(cl), via), g, env.evalBool(cl.Expr), fr.pos(from.Instrs[len(from.Instrs)-1].Pos())).Group = cl.Group
 	}
 	for _, cl := range fr.loopClauses(li, "decreases") {
 		// measure at head vs at back edge (unsigned, 64-bit)
